@@ -14,8 +14,6 @@ Let wfK := wf (p_hasbackrefs prog) K.
 Let R := Rop input (p_case prog) (p_multi prog) (p_op prog).
 
 Hypothesis Hsimple : simple input (p_case prog) (p_multi prog) (p_hasbackrefs prog) K (p_op prog).
-Hypothesis Hunopt : p_hasbol prog = false /\ p_minlen prog = 0%N /\ p_prefix prog = None
-                    /\ p_icc prog = None /\ p_pre prog = [].
 
 (* states between calls: the arrays have equal lengths; match_at resets the rest itself *)
 Definition wf0 (s : mstate) : Prop :=
@@ -87,6 +85,9 @@ Proof.
         intros m Hm. destruct (Nat.eq_dec m j) as [->|]; auto. apply Hbefore. lia.
       * intros m Hm. destruct (Nat.eq_dec m j) as [->|]; auto. apply IH. lia.
 Qed.
+
+Hypothesis Hunopt : p_hasbol prog = false /\ p_minlen prog = 0%N /\ p_prefix prog = None
+                    /\ p_icc prog = None /\ p_pre prog = [].
 
 Theorem matches_unopt_spec i s_in : i <= n -> length (sb s_in) = length (eb s_in) ->
   match matches prog input i s_in with
